@@ -26,7 +26,8 @@ def show_out(rows, err=None):
     try:
         s = proto.enc_table(rows)
     except proto.Unencodable as e:
-        return 'UNENCODABLE ' + str(e)
+        # values the protocol has no code for: the Python repr (types visible), good enough to compare two real outputs
+        return 'UNENCODABLE %s: %r%s' % (e, [tuple(r) if isinstance(r, (list, tuple)) else r for r in rows], '' if err is None else ' ERR ' + err)
     return s if err is None else s + ' ERR ' + err
 
 
@@ -226,6 +227,10 @@ def exotic_key_cases(etl, rng, ctx, pid, ncases):
     for ci in range(ncases):
         sub = rng.sample(pool, rng.choice([3, 4, 5]))
         A = [['k', 'v']] + [[rng.choice(sub), i] for i in range(rng.choice([2, 3, 5, 6]))]
+        if pid == 'C05' and ci % 3 == 0:
+            # cells that support the buffer protocol without being bytes: what comes back from a chunk file is what went in
+            import array as _array
+            A = [['k', 'v']] + [[r[0], rng.choice([bytearray(b'ab'), b'ab', _array.array('i', [1, 2]), bytearray()])] for r in A[1:]]
         B = [['k', 'w']] + [[rng.choice(sub), 10 + i] for i in range(rng.choice([1, 2, 4]))]
         case = {'A': repr(A), 'B': repr(B)}
         ctx.case(('exotic-keys', pid, repr(A), repr(B)))
@@ -234,7 +239,7 @@ def exotic_key_cases(etl, rng, ctx, pid, ncases):
             if pid == 'C05':
                 outs = [[tuple(r) for r in etl.sort(A, 'k', buffersize=bs, reverse=rev)] for rev in (False, True) for bs in (None, 1, 2)]
                 for rev, group in ((False, outs[:3]), (True, outs[3:])):
-                    ok = all(o == group[0] for o in group) and Counter(group[0][1:]) == Counter(tuple(r) for r in A[1:]) and \
+                    ok = all(repr(o) == repr(group[0]) for o in group) and sorted(map(repr, group[0][1:])) == sorted(repr(tuple(r)) for r in A[1:]) and \
                         all(not (Comparable(y[0]) < Comparable(x[0]) if not rev else Comparable(x[0]) < Comparable(y[0]))
                             for x, y in zip(group[0][1:], group[0][2:]))
                     if not ok:
